@@ -19,6 +19,10 @@ CHECKS = {
          "For every value of the universes and 8 suffixes, decoding consumes exactly the encoding; for evolved records under every writer/reader pair with stored version >= 1 (and version 0 without removals)."),
  "C08": ("fault_enumeration", "6 C08", "enumeration of every cut point of every encoding of the universes (crash-point enumeration of a torn write)",
          "Every strict prefix of every encoding (all cut points up to 600 bytes, boundary-heavy subset beyond) is rejected with Err; evolved records also under every other definition of their history when the stored version is >= 1."),
+ "C09": ("model_checking", "6 C09", "exhaustive enumeration of scripts of deduplicated / plain string writes x seven placements, executed on the real library and compared with the model and with the statement's own id arithmetic",
+         "All scripts up to length 5 (6) over 8 operations in 7 placements: decoded strings equal the written ones, ids follow first occurrence in stream-processing order (header names first), streams without repeats are byte-identical to the plain stream, unknown ids are Err."),
+ "C10": ("model_checking", "6 C10", "exhaustive enumeration of rooted digraphs (<= 3 / 4 nodes, out-degree <= 2) through a safe harness codec on the public reference-tracking API, against a reference pre-order numbering and an isomorphism check with pointer equality",
+         "All 2 249 (quick) / 196 730 (thorough) graphs: stream equals the reference stream, decoded graph is isomorphic with shared nodes shared and distinct nodes distinct, encoding terminates on every cyclic graph, every reference id beyond the objects introduced so far is Err."),
  "C11": ("model_checking", "6 C11", "exhaustive enumeration of all 2^32 unsigned and all 2^32 signed values against a reference formula (no bound)",
          "Quick: all 2^33 values through Vec<u8> -> SliceInput plus a structured boundary subset through the other 16 combinations; thorough: all 2^33 values through all 18 (signedness, sink, source) combinations. Exhaustive outright in the thorough tier."),
  "C12": ("model_checking", "6 C12", "exhaustive enumeration of element lists x source containers x target containers x size forms, decode followed by a sentinel",
